@@ -180,7 +180,17 @@ pub enum Step {
     Clone { src: usize, dst: usize, link: bool },
     Unlink { i: usize },
     /// a script with two variables: `ADD($a); ADD($b); BIND(p, $a, l1); BIND($a, $b, l2);`
-    Script2 { i: usize, p: Id, l1: PLabel, l2: PLabel, a: String, b: String },
+    Script2 {
+        i: usize,
+        p: Id,
+        l1: PLabel,
+        l2: PLabel,
+        a: String,
+        b: String,
+        /// the same `Script` object is deployed a second time (its variables are bound by then)
+        #[serde(default)]
+        twice: bool,
+    },
     /// `times` binds of the same label of `v`, alternately to `t1` and `t2`, with nothing looked at
     /// in between (counters that wrap, caches that are validated by a revision number)
     Storm { i: usize, v: Id, a: PLabel, t1: Id, t2: Id, times: usize },
@@ -188,6 +198,11 @@ pub enum Step {
     /// fresh data on `v`, 1 = repeated data() of a datum that was read already, 2 = add() of the
     /// present `v`, 3 = clone() + drop, 4 = save() to path 0
     Repeat { i: usize, kind: u8, v: Id, times: usize },
+    /// A lookup that succeeds, the death of the vertex's group, its re-creation, then `times` edge
+    /// changes elsewhere with nothing looked at, then the same lookup (which must find nothing):
+    /// `kid(v, a)`, `data(reader)` (collects v's group), `add(v)`, `times` re-binds of `w .b`
+    /// alternately to t1/t2, `kid(v, a)`
+    ReaddStorm { i: usize, v: Id, a: PLabel, reader: Id, w: Id, b: PLabel, t1: Id, t2: Id, times: usize },
     /// `times` calls of slice(v) whose results are dropped unseen
     SliceStorm { src: usize, v: Id, times: usize },
     /// `dst.clone_from(&src)` on a graph that already exists and was used
@@ -241,6 +256,7 @@ impl Step {
             Self::Unlink { .. } => "unlink",
             Self::Storm { .. } => "storm",
             Self::Repeat { .. } => "repeat",
+            Self::ReaddStorm { .. } => "readdstorm",
             Self::SliceStorm { .. } => "slicestorm",
             Self::Drop { .. } => "drop",
             Self::Slice { .. } => "slice",
